@@ -270,6 +270,7 @@ def run(tier: str) -> int:
             if v["family"] == "corpus" and v["violation"]["kind"] not in SOFT:
                 key += ":" + v["scenario"]["case"] + ":" + v["scenario"]["transform"]
             by_class.setdefault(key, []).append(v)
+    kit.dump_raw(PROP, tier, by_class)
     unknown: dict[str, list[dict[str, Any]]] = {}
     for cls, vs in sorted(by_class.items()):
         for v in vs:
